@@ -12,30 +12,106 @@ Proof.
   intros (_ & _ & Hr & _). destruct (g_active g) as [[x|n]|]; cbn in *; apply Hr.
 Qed.
 
-Lemma sim_dstep e s g : R s g ->
-  fst (dstep Fixed e s) = fst (dsstep e g) /\ R (snd (dstep Fixed e s)) (snd (dsstep e g)).
+(** what one request does to the (at most one) live timer of the repaired model *)
+Lemma timers_step e s g : R s g ->
+  timers (snd (step Fixed e s)) = []
+  \/ (refreshes (g_active g) e = true /\ exists x, timers (snd (step Fixed e s)) = [(x, false)])
+  \/ (refreshes (g_active g) e = false /\ timers (snd (step Fixed e s)) = timers s).
 Proof.
-  intros HR. destruct e as [e| |]; [apply sim_step; assumption| |split; [reflexivity|exact HR]].
-  cbn [dstep dsstep fst snd]. unfold expire_all.
-  pose proof (sim_step EExpire s g HR) as [_ HR']. cbn [step sstep fst snd] in HR'.
-  destruct HR as (Hd & Hs & Hr & Hw). cbn [sstep fst snd].
-  destruct (g_active g) as [[x|n]|] eqn:Ha; cbn in Hr; destruct Hr as (Hst & Hsi & Hle & Hti & How);
-    rewrite Hti; cbn [length Nat.iter is_ghttp].
-  - split; [reflexivity|]. exact HR'.
-  - split; [reflexivity|]. cbn [Nat.iter]. unfold R. rewrite Ha. cbn. auto 10.
-  - split; [reflexivity|]. cbn [Nat.iter]. unfold R. rewrite Ha. cbn. auto 10.
+  intros HR. destruct s as [sd st si le ti se ow], g as [a w d]. destruct HR as (Hd & Hs & Hr & Hw). cbn in *.
+  destruct a as [[x|n]|]; cbn in Hr;
+    [destruct Hr as (-> & -> & -> & (b & ->) & ->) | destruct Hr as (-> & -> & -> & -> & ->) ..];
+    destruct e as [start id end_ ents|m|m ents|m|tents|]; unf; unfold refreshes; cbn;
+    try (destruct start; cbn); rewrite ?N.eqb_refl; cbn;
+    try (destruct (N.eqb id x) eqn:Hid; cbn); try (destruct (N.eqb id 0) eqn:Hid0; cbn);
+    try (destruct end_; cbn); try (destruct (N.eqb n m); cbn);
+    first [ left; reflexivity
+          | right; left; split; [reflexivity | eexists; reflexivity]
+          | right; right; split; reflexivity ].
 Qed.
 
-Lemma predict_spredict h : forall s g, R s g -> predict_from Fixed h s = spredict_from h g.
+Definition flagrel (s : state) (f : bool) : Prop := forall x b, timers s = [(x, b)] -> b = negb f.
+Definition R2 (s : state) (gf : dspec) : Prop := R s (fst gf) /\ flagrel s (snd gf).
+
+Lemma R2_init : R2 init (sinit, true).
+Proof. split; [apply R_init | intros x b H; discriminate]. Qed.
+
+Lemma expire_all_sim s g : R s g ->
+  R (expire_all s) (snd (sstep EExpire g)) /\ timers (expire_all s) = [].
 Proof.
-  induction h as [|e h IH]; intros s g HR; cbn [predict_from spredict_from]; [reflexivity|].
-  destruct (sim_dstep e s g HR) as [Hr HR'].
-  destruct (dstep Fixed e s) as [r s1], (dsstep e g) as [r' g1]. cbn [fst snd] in Hr, HR'. subst r'.
-  rewrite (IH s1 g1 HR'), (started_is_some s1 g1 HR').
+  intros HR. unfold expire_all.
+  pose proof (sim_step EExpire s g HR) as [_ HR']. cbn [step sstep fst snd] in HR'.
+  destruct HR as (Hd & Hs & Hr & Hw). cbn [sstep fst snd] in *.
+  destruct (g_active g) as [[x|n]|] eqn:Ha; cbn in Hr.
+  - destruct Hr as (Hst & Hsi & Hle & (b & Hti) & How). rewrite Hti. cbn [length Nat.iter is_ghttp] in *.
+    split; [exact HR'|]. unfold Nat.iter; cbn [nat_rect]. unfold expire. rewrite Hti, Hsi, N.eqb_refl. reflexivity.
+  - destruct Hr as (Hst & Hsi & Hle & Hti & How). rewrite Hti. cbn [length Nat.iter is_ghttp].
+    split; [|assumption]. unfold R. rewrite Ha. cbn. auto 10.
+  - destruct Hr as (Hst & Hsi & Hle & Hti & How). rewrite Hti. cbn [length Nat.iter is_ghttp].
+    split; [|assumption]. unfold R. rewrite Ha. cbn. auto 10.
+Qed.
+
+Lemma sim_dstep e s gf : R2 s gf ->
+  fst (dstep Fixed e s) = fst (dsstep e gf) /\ R2 (snd (dstep Fixed e s)) (snd (dsstep e gf)).
+Proof.
+  destruct gf as [g f]. intros [HR Hf]. cbn [fst snd] in HR, Hf.
+  destruct e as [e| | | |]; cbn [dstep dsstep].
+  - (* a request *)
+    destruct (sim_step e s g HR) as [H1 H2]. pose proof (timers_step e s g HR) as Ht.
+    destruct (sstep e g) as [r g1]. cbn [fst snd] in *. split; [assumption|]. split; [assumption|].
+    cbn [snd]. intros x b Hx. destruct Ht as [Ht|[[Hre (y & Ht)]|[Hre Ht]]].
+    + rewrite Ht in Hx. discriminate.
+    + rewrite Ht in Hx. injection Hx as _ <-. rewrite Hre, orb_true_r. reflexivity.
+    + rewrite Hre, orb_false_r. apply (Hf x). rewrite <- Ht. assumption.
+  - (* every outstanding timer fires *)
+    destruct (expire_all_sim s g HR) as [H1 H2]. destruct (sstep EExpire g) as [r g1] eqn:He.
+    assert (r = RNone) by (cbn in He; now injection He as <- _). subst r.
+    cbn [fst snd] in *. split; [reflexivity|]. split; [assumption|].
+    intros x b Hx. rewrite H2 in Hx. discriminate.
+  - split; [reflexivity|]. split; assumption.
+  - (* time passes, less than a lease *)
+    cbn [fst snd]. split; [reflexivity|]. split.
+    + destruct HR as (Hd & Hs & Hr & Hw). unfold R. cbn. repeat split; try assumption.
+      destruct (g_active g) as [[x|n]|]; cbn in *.
+      * destruct Hr as (? & ? & ? & (b & Hti) & ?). rewrite Hti. cbn. eauto 10.
+      * destruct Hr as (? & ? & ? & Hti & ?). rewrite Hti. cbn. auto 10.
+      * destruct Hr as (? & ? & ? & Hti & ?). rewrite Hti. cbn. auto 10.
+    + intros x b Hx. cbn in Hx. destruct (timers s) as [|[y c] [|? ?]]; cbn in Hx; try discriminate.
+      now injection Hx as _ <-.
+  - (* the old timers fire, the younger ones do not *)
+    unfold expire_old, old_count.
+    destruct HR as (Hd & Hs & Hr & Hw).
+    destruct (g_active g) as [[x|n]|] eqn:Ha; cbn in Hr.
+    + destruct Hr as (Hst & Hsi & Hle & (b & Hti) & How).
+      pose proof (Hf x b Hti) as Hb. rewrite Hti. cbn [filter snd length].
+      destruct f; cbn in Hb; subst b; cbn [length fst snd]; unfold Nat.iter; cbn [nat_rect].
+      * split; [reflexivity|]. split; [|assumption]. cbn [fst]. unfold R. rewrite Ha. cbn. eauto 10.
+      * assert (HR : R s g) by (unfold R; rewrite Ha; cbn; eauto 10).
+        destruct (sim_step EExpire s g HR) as [_ H2]. cbn [step fst snd] in H2.
+        destruct (sstep EExpire g) as [r g1] eqn:He.
+        assert (r = RNone) by (cbn in He; now injection He as <- _). subst r.
+        cbn [fst snd] in *. split; [reflexivity|]. split; [assumption|].
+        intros y c Hy. unfold expire in Hy. rewrite Hti, Hsi, N.eqb_refl in Hy. discriminate.
+    + destruct Hr as (Hst & Hsi & Hle & Hti & How). rewrite Hti. cbn [filter length]; unfold Nat.iter; cbn [nat_rect].
+      assert (HR : R s g) by (unfold R; rewrite Ha; cbn; auto 10).
+      destruct f; cbn [fst snd]; [split; [reflexivity|]; split; assumption|].
+      cbn [sstep]. rewrite Ha. cbn [is_ghttp fst snd]. split; [reflexivity|]. split; assumption.
+    + destruct Hr as (Hst & Hsi & Hle & Hti & How). rewrite Hti. cbn [filter length]; unfold Nat.iter; cbn [nat_rect].
+      assert (HR : R s g) by (unfold R; rewrite Ha; cbn; auto 10).
+      destruct f; cbn [fst snd]; [split; [reflexivity|]; split; assumption|].
+      cbn [sstep]. rewrite Ha. cbn [is_ghttp fst snd]. split; [reflexivity|]. split; assumption.
+Qed.
+
+Lemma predict_spredict h : forall s gf, R2 s gf -> predict_from Fixed h s = spredict_from h gf.
+Proof.
+  induction h as [|e h IH]; intros s gf HR; cbn [predict_from spredict_from]; [reflexivity|].
+  destruct (sim_dstep e s gf HR) as [Hr HR'].
+  destruct (dstep Fixed e s) as [r s1], (dsstep e gf) as [r' gf1]. cbn [fst snd] in Hr, HR'. subst r'.
+  rewrite (IH s1 gf1 HR'). destruct HR' as [HR' _]. rewrite (started_is_some s1 _ HR').
   destruct HR' as (Hd & _). rewrite Hd. reflexivity.
 Qed.
 
 Theorem agree_fixed_spec c : agree Fixed c = true -> spec_ok c = true.
 Proof.
-  unfold agree, spec_ok, predict, spredict. now rewrite (predict_spredict _ init sinit R_init).
+  unfold agree, spec_ok, predict, spredict. now rewrite (predict_spredict _ init (sinit, true) R2_init).
 Qed.
